@@ -286,6 +286,109 @@ pub fn h_c11_pncounter_merge(inp: &Inp) -> u8 {
     1
 }
 
+/// wide totals: every actor total is one of {0, 1, 2^63, 2^63+1, 2^64-2, 2^64-1} (0 = absent), so sums of
+/// three totals cross 2^64 and single totals reach u64::MAX
+const WBASE: [u64; 3] = [0, 1 << 63, u64::MAX - 1];
+fn any_w(i: &mut In) -> u64 {
+    let hi = i.below(3) as usize;
+    let lo = i.below(2) as u64;
+    WBASE[hi] + lo
+}
+fn any_wide(i: &mut In) -> [u64; NAU] {
+    let mut t = [0u64; NAU];
+    let mut a = 0;
+    while a < NAU {
+        t[a] = any_w(i);
+        a += 1;
+    }
+    t
+}
+fn wsum(t: &[u64; NAU]) -> u128 {
+    let mut s = 0u128;
+    let mut a = 0;
+    while a < NAU {
+        s += t[a] as u128;
+        a += 1;
+    }
+    s
+}
+fn wmax(x: &[u64; NAU], y: &[u64; NAU]) -> [u64; NAU] {
+    let mut t = *x;
+    let mut a = 0;
+    while a < NAU {
+        if y[a] > t[a] {
+            t[a] = y[a];
+        }
+        a += 1;
+    }
+    t
+}
+fn wspec(t: &[u64; NAU]) -> GCounter<u8> {
+    gacc::from_inner(vc_from(|a| t[a as usize]))
+}
+
+//@ disabled-harness (symbolic execution does not finish in 400 s: guarded-constant sums over 6-valued 64-bit totals) props=C11 covers=3,4 name=GCounter / PNCounter with actor totals at the 64-bit boundaries (0, 1, 2^63, 2^63+1, 2^64-2, 2^64-1; sums beyond 2^64): read is the exact sum / difference, apply keeps the larger total, merge is the per-actor maximum
+#[no_mangle]
+pub fn h_c11_counter_wide(inp: &Inp) -> u8 {
+    let mut i = In::new(inp);
+    let p = any_wide(&mut i);
+    let n = any_wide(&mut i);
+    let q = any_wide(&mut i);
+    let a = i.below(NA) as usize;
+    let c = any_w(&mut i);
+    let neg = i.bool();
+    if !i.ok {
+        return 2;
+    }
+    // GCounter: read, apply of an arbitrary dot, merge
+    let mut g = wspec(&p);
+    if g.read() != BigUint::from(wsum(&p)) {
+        return 0;
+    }
+    g.apply(dot(a as u8, c));
+    let mut p2 = p;
+    if c > p2[a] {
+        p2[a] = c;
+    }
+    if g != wspec(&p2) || g.read() != BigUint::from(wsum(&p2)) {
+        return 0;
+    }
+    let mut m = wspec(&p);
+    m.merge(wspec(&q));
+    let pq = wmax(&p, &q);
+    if m != wspec(&pq) || m.read() != BigUint::from(wsum(&pq)) {
+        return 0;
+    }
+    // PNCounter: read, apply in either direction, merge
+    let mut pn = pacc::from_parts(wspec(&p), wspec(&n));
+    let diff = |x: &[u64; NAU], y: &[u64; NAU]| BigInt::from(wsum(x) as i128) - BigInt::from(wsum(y) as i128);
+    if pn.read() != diff(&p, &n) {
+        return 0;
+    }
+    pn.apply(PnOp { dot: dot(a as u8, c), dir: if neg { Dir::Neg } else { Dir::Pos } });
+    let mut n2 = n;
+    if c > n2[a] {
+        n2[a] = c;
+    }
+    let (pe, ne) = if neg { (p, n2) } else { (p2, n) };
+    if pn != pacc::from_parts(wspec(&pe), wspec(&ne)) || pn.read() != diff(&pe, &ne) {
+        return 0;
+    }
+    let mut pm = pacc::from_parts(wspec(&p), wspec(&n));
+    pm.merge(pacc::from_parts(wspec(&q), wspec(&p)));
+    let np = wmax(&n, &p);
+    if pm != pacc::from_parts(wspec(&pq), wspec(&np)) || pm.read() != diff(&pq, &np) {
+        return 0;
+    }
+    if wsum(&p) > u64::MAX as u128 && wsum(&p2) > wsum(&p) {
+        3 // the sum does not fit a machine word and still grows
+    } else if wsum(&p) < wsum(&n) && wsum(&n) > u64::MAX as u128 {
+        4 // negative difference with a wide decrement sum
+    } else {
+        1
+    }
+}
+
 /// number of ops in the register / set universes
 const NW: usize = 3;
 
